@@ -67,3 +67,13 @@ pub proof fn lemma_off_ge(s: Seq<char>, k: int)
 {
     if k > 0 { lemma_off_ge(s, k - 1); }
 }
+
+// a byte offset names at most one character index
+pub proof fn lemma_off_unique(s: Seq<char>, k: int, b: int)
+    requires 0 <= k <= s.len(), off(s, k) == b
+    ensures forall|j: int| 0 <= j <= s.len() && off(s, j) == b ==> j == k
+{
+    assert forall|j: int| 0 <= j <= s.len() && off(s, j) == b implies j == k by {
+        if j < k { lemma_off_mono(s, j, k); } else if j > k { lemma_off_mono(s, k, j); }
+    }
+}
